@@ -114,6 +114,8 @@ pub struct Ix {
     pub if_not_exists: bool,
     /// partial index predicate: column > k
     pub filter: Option<(String, i64)>,
+    /// further conjuncts `column <> k_i` on the same column, each added by its own and_where / cond_where call
+    pub filter_more: Vec<i64>,
 }
 
 #[derive(Clone, Debug, Default)]
@@ -381,6 +383,13 @@ impl Ix {
         }
         if let Some((c, k)) = &self.filter {
             ix.and_where(Expr::col(a(c)).gt(*k));
+            for m in &self.filter_more {
+                if crate::apply::route(2) == 0 {
+                    ix.and_where(Expr::col(a(c)).ne(*m));
+                } else {
+                    ix.cond_where(Expr::col(a(c)).ne(*m));
+                }
+            }
         }
         ix
     }
